@@ -15,6 +15,7 @@ type rcProbe struct {
 	relCount  [5]int // how often the release function of value n ran
 	resolving int
 	told      [3]int // per reference: the value it was last told (0 = gone / nothing)
+	dropped   [3]bool // the holder of reference j has decided to release it
 	target    *ccontainer.CContainer[int]
 	lastRel   func() // the released() callback handed to the latest resolver call
 }
@@ -61,7 +62,7 @@ func (p *rcProbe) resolver(mode int, errFail error) refcount.RefCountResolver[in
 func (p *rcProbe) cb(j int) func(resolved bool, val int, err error) {
 	return func(resolved bool, val int, err error) {
 		vrt.Atomic(func() {
-			if resolved && err == nil {
+			if resolved && err == nil && !p.dropped[j] {
 				p.told[j] = val
 			} else {
 				p.told[j] = 0
@@ -95,11 +96,11 @@ func H_C08_Script() {
 	for i := 0; i < 2; i++ {
 		switch ops[i] {
 		case 0:
-			vrt.Atomic(func() { p.told[0] = 0 }) // the holder gives the value up
+			vrt.Atomic(func() { p.told[0], p.dropped[0] = 0, true }) // the holder gives the value up
 			ref0.Release()
 		case 1:
 			r1 := rc.AddRef(p.cb(1))
-			vrt.Atomic(func() { p.told[1] = 0 })
+			vrt.Atomic(func() { p.told[1], p.dropped[1] = 0, true })
 			r1.Release()
 		case 2:
 			rc.SetContext(ctxB)
@@ -114,7 +115,7 @@ func H_C08_Script() {
 		}
 	}
 	vrt.AtQuiescence(func() {
-		vrt.Atomic(func() { p.told[0] = 0 })
+		vrt.Atomic(func() { p.told[0], p.dropped[0] = 0, true })
 		ref0.Release()
 		rc.ClearContext()
 		cancelA()
@@ -131,12 +132,12 @@ func H_C08_Slow() {
 	rc := refcount.NewRefCount[int](ctxA, false, p.target, nil, p.resolver(2, nil))
 	ref0 := rc.AddRef(p.cb(0))
 	vrt.Go("releaser", func() {
-		vrt.Atomic(func() { p.told[0] = 0 })
+		vrt.Atomic(func() { p.told[0], p.dropped[0] = 0, true })
 		ref0.Release()
 	})
 	vrt.Go("second", func() {
 		r1 := rc.AddRef(p.cb(1))
-		vrt.Atomic(func() { p.told[1] = 0 })
+		vrt.Atomic(func() { p.told[1], p.dropped[1] = 0, true })
 		r1.Release()
 	})
 	vrt.AtQuiescence(func() {
@@ -154,7 +155,7 @@ func H_C08_ReleasedRace() {
 	ref0 := rc.AddRef(p.cb(0))
 	vrt.AtQuiescence(func() {
 		vrt.Go("releaser", func() {
-			vrt.Atomic(func() { p.told[0] = 0 }) // the holder gives the value up
+			vrt.Atomic(func() { p.told[0], p.dropped[0] = 0, true }) // the holder gives the value up
 			ref0.Release()
 		})
 		vrt.Go("invalidator", func() {
